@@ -5,6 +5,8 @@ import HappyProofs.C17.MLConv
 import HappyProofs.C17.MLSched
 import HappyProofs.C17.MLMGossip
 import HappyProofs.C17.MLMRun
+import HappyProofs.C17.MLJudge
+import HappyProofs.C17.MLMMain
 /-!
 # C17 — property theorems
 
@@ -306,6 +308,52 @@ example :
     (∀ x ∈ [a, b, c], ∀ y ∈ [a, b, c], ML.dominates 2 y.vc x.vc = true → ML.vlt x y) ∧
     ML.mergeAll 2 none [a, b, c] = some c ∧ ML.mergeAll 2 none [c, b, a, b] = some c := by decide
 
+/-! ### can "positive latency" be weakened to what the engine guarantees?
+
+The engine guarantees only that simulated time never goes backwards (a link latency of 0 and a store
+write latency of 0 are legal), i.e. `ML.schedOK` with `≤` instead of `<`: a leader may stamp a write
+at the *same* instant as a version it has just received.  That is not enough for last-writer-wins:
+timestamps then tie between causally ordered versions, the tie is broken by writer id against the
+causal order, and the merge order is no longer a total order. -/
+
+/-- clock readings never decrease — all the engine promises about the timestamps of a run -/
+def clockMonotone : ML.St → List Act → Bool
+  | _, [] => true
+  | s, a :: as => (match a with | .tick t => decide (s.now ≤ t) | _ => true) && clockMonotone (ML.step s a) as
+
+/-- three leaders, one key, every event at the single instant `t = 10` (zero link and store latency):
+    leader 2 writes 7; leader 0 receives it and then writes 8 (causally after 7, same timestamp,
+    smaller writer id); leader 1 writes 9 concurrently.  Dominance puts `7 < 8`, the (timestamp, writer)
+    order puts `8 < 9 < 7`.  Leader 1 receives 7 then 8 and ends on 8, leader 2 refuses 9 and takes 8,
+    leader 0 (holding 8) receives 9 and takes it. -/
+def mlZeroLatencyWitness : List Act :=
+  [.tick 10, .cw 0 2 0 7, .rs 0, .dl 0, .rs 1, .cw 1 0 0 8, .rs 2, .cw 2 1 0 9, .rs 3,
+   .dl 1, .rs 4, .dl 2, .rs 5, .dl 5, .dl 3, .rs 7, .dl 4, .rs 8, .rs 0, .rs 2, .rs 3]
+
+/-- **Positive latency cannot be weakened to the engine's guarantee** (time never goes backwards):
+    a run with a monotone clock, accepted by the model and quiescent, in which the leaders end on
+    9, 8, 8.  So `ml_quiescent_convergence_positive_latency` needs the strict inequality of
+    `ML.schedOK` (a `Replicate` takes at least one clock unit — 1 ns — which the harness guarantees by
+    drawing every link latency from values ≥ 1 ns); with zero-latency links the real code is outside
+    the theorem, and the convergence clause for last-writer-wins is claimed only for positive
+    latencies. -/
+theorem ml_positive_latency_needed :
+    ¬ (∀ (n nk : Nat) (acts : List Act), clockMonotone (ML.init n nk) acts = true →
+        ML.quiescentB (ML.run (ML.init n nk) acts) = true →
+        ∀ i j k, i < n → j < n →
+          (ML.run (ML.init n nk) acts).store i k = (ML.run (ML.init n nk) acts).store j k) := by
+  intro h
+  have h1 := h 3 1 mlZeroLatencyWitness (by decide) (by decide) 0 1 0 (by decide) (by decide)
+  revert h1
+  decide
+
+example : (ML.run (ML.init 3 1) mlZeroLatencyWitness).err = none ∧
+    (ML.created (ML.init 3 1) mlZeroLatencyWitness).map (fun kv => (kv.2.val, kv.2.ts, kv.2.writer, kv.2.vc)) =
+      [(7, 10, 2, [0, 0, 1]), (8, 10, 0, [2, 0, 1]), (9, 10, 1, [0, 1, 0])] ∧
+    ML.schedOK (ML.init 3 1) (fun _ => 0) mlZeroLatencyWitness = false ∧
+    (List.range 3).map (fun i => (ML.run (ML.init 3 1) mlZeroLatencyWitness).store i 0) = [some 9, some 8, some 8] := by
+  decide
+
 /-! ## multi-leader with a merging conflict resolver (`VectorClockMerge(merge_fn)`, `CustomResolver`)
 
 The resolver returns a *third* version for two concurrent ones: the join of the values (`|||` on item
@@ -474,5 +522,63 @@ example :
     MLM.quiescentB (MLM.run (MLM.init 3 1 .union) mlmWitness) = true ∧
     (∀ i < 3, ∀ c < 3, MLM.clk ((MLM.run (MLM.init 3 1 .union) mlmWitness).vers i 0) c = [2, 1, 0].getD c 0) := by
   decide
+
+/-! ### the three pieces composed: one run-level theorem -/
+
+/-- **Merging resolver: quiescent + anti-entropy having run ⇒ all replicas agree.**  For every action
+    list of the `MLM` transition system (writes at any leaders, `Replicate` and anti-entropy messages
+    delivered in any order, handlers resumed in any order, crossing and overlapping exchanges, stale
+    requests and responses still in flight), with no hypothesis on timestamps: if the run is quiescent
+    and, after its last client-write / `Replicate` handler step, the anti-entropy *requests* carry every
+    leader's knowledge to every leader (`MLM.KComplete` of `MLM.krun`: a tick snapshots the sender's
+    knowledge into the request it sends, the step that finishes the request's handler adds it to the
+    receiver's — the computation of `Spec.gossipComplete`, carried forward along the run), then all
+    leaders hold the same value for every key.
+    (The common value is the join of what the leaders held when the last `Replicate` handler finished —
+    not "the join of all written values": an overwritten value survives only where it had been merged
+    before its successor arrived, `mlm_replicate_order_matters`.) -/
+theorem mlm_run_gossip_complete_converges (n nk : Nat) (jn : MLM.Join) (acts : List Act)
+    (hq : MLM.quiescentB (MLM.run (MLM.init n nk jn) acts) = true)
+    (hk : MLM.KComplete n (MLM.krun (MLM.init n nk jn) MLM.GK.reset acts).2)
+    (i j k : Nat) (hi : i < n) (hj : j < n) :
+    (MLM.run (MLM.init n nk jn) acts).store i k = (MLM.run (MLM.init n nk jn) acts).store j k :=
+  MLM.run_gossip_complete_converges n nk jn acts hq hk i j k hi hj
+
+/-- non-vacuity: the recorded run continued by the requests 2 → 0, 0 → 1, 1 → 2, 1 → 0 is quiescent,
+    its knowledge is complete, and all three leaders end on 14; after the first two requests the values
+    already agree but the knowledge is not complete yet (the criterion is sufficient, not necessary) -/
+example :
+    let acts := mlmWitness ++ [.ae 2 0, .rs 9, .dl 6, .rs 10, .ae 0 1, .rs 11, .dl 7, .rs 12,
+      .ae 1 2, .rs 13, .dl 8, .rs 14, .ae 1 0, .rs 15, .dl 9, .rs 16]
+    (MLM.run (MLM.init 3 1 .union) acts).err = none ∧
+    MLM.quiescentB (MLM.run (MLM.init 3 1 .union) acts) = true ∧
+    MLM.kcompleteB 3 (MLM.krun (MLM.init 3 1 .union) MLM.GK.reset acts).2 = true ∧
+    (List.range 3).map (fun i => (MLM.run (MLM.init 3 1 .union) acts).store i 0) = [some 14, some 14, some 14] ∧
+    MLM.kcompleteB 3 (MLM.krun (MLM.init 3 1 .union) MLM.GK.reset
+      (mlmWitness ++ [.ae 2 0, .rs 9, .dl 6, .rs 10, .ae 0 1, .rs 11, .dl 7, .rs 12])).2 = false := by
+  decide
+
+/-- **The judge's convergence clause for merging resolvers is silent on the model.**  A transcript
+    whose last step shows the model's stores and whose `Q` flag is the model's quiescence is accepted
+    by `Spec.judgeMLn n true`, provided the judge's reading of the delivery log implies the model's
+    knowledge computation (`hlog`; the two are the same computation on two representations of one run —
+    printed lines vs. the action list — which is cross-checked by the harness on every run of the
+    check, not proved: it would need the decimal print/parse round trip). -/
+theorem mlm_judge_convergence_silent (n nk : Nat) (jn : MLM.Join) (acts : List Act) (steps : List Spec.Step)
+    (hfin : Spec.finalStores steps = modelStores (MLM.run (MLM.init n nk jn) acts).store n nk)
+    (hlog : Spec.gossipComplete n steps = true →
+      MLM.KComplete n (MLM.krun (MLM.init n nk jn) MLM.GK.reset acts).2) :
+    Spec.judgeMLn n true steps (MLM.quiescentB (MLM.run (MLM.init n nk jn) acts)) = none := by
+  unfold Spec.judgeMLn
+  simp only [if_true]
+  cases hq : MLM.quiescentB (MLM.run (MLM.init n nk jn) acts) with
+  | false => simp
+  | true =>
+    cases hg : Spec.gossipComplete n steps with
+    | false => simp
+    | true =>
+      have hc := converged_of_agree (MLM.run (MLM.init n nk jn) acts).store n nk
+        (fun i j k hi hj => MLM.run_gossip_complete_converges n nk jn acts hq (hlog hg) i j k hi hj)
+      rw [hfin, hc]; simp
 
 end HappyModel.C17
